@@ -725,6 +725,9 @@ fn t_scn(body: TBody, allow_cancel: bool) -> &'static str {
                 let left = tx.write_all(vec![1, 2]).await;
                 d2.borrow_mut().push(format!("left {}", left.len()));
             }
+            #[cfg(not(feature = "spawn"))]
+            TBody::Spawn(_) => {}
+            #[cfg(feature = "spawn")]
             TBody::Spawn(n) => {
                 for i in 0..n {
                     let d3 = d2.clone();
@@ -833,6 +836,8 @@ fn k_scn(wakes: usize, also_waitable: bool, allow_cancel: bool) -> &'static str 
     let f2 = flag.clone();
     let done = Rc::new(RefCell::new(false));
     let d2 = done.clone();
+    // this scenario keeps the sleeper's waker in `flag` for as long as the scenario runs
+    with(|h| h.wakers_outlive_tasks = true);
     driver::start_task(async move {
         let _g = Guard::new();
         let sleeper = poll_fn(|cx| {
@@ -894,6 +899,173 @@ fn k_scn(wakes: usize, also_waitable: bool, allow_cancel: bool) -> &'static str 
             }
         });
     }
+    how
+}
+
+// ------------------------------------------------------------------------------- foreign executor / moves (C18)
+
+#[derive(Clone, Copy, PartialEq, Eq, Debug)]
+enum MOp {
+    StreamWrite,
+    StreamRead,
+    FutureRead,
+    Subtask,
+}
+
+/// One in-flight operation, driven by one or two *foreign* tasks (harness executor speaking
+/// the wasip3_task C ABI `version`), optionally moved from task A to task B while pending.
+fn m_scn(version: u32, op: MOp, allow_move: bool) -> &'static str {
+    use crate::hexec::{self, HTask};
+    let tasks = [HTask::new(version), HTask::new(version)];
+    let mut alive = [true, true];
+    let result: Rc<RefCell<Option<String>>> = Rc::new(RefCell::new(None));
+    let res2 = result.clone();
+    let mut fut: Option<std::pin::Pin<Box<dyn Future<Output = ()>>>> = Some(match op {
+        MOp::StreamWrite => {
+            let (mut tx, rx) = unsafe { stream_new(&BLOBS) };
+            with(|h| h.give_stream_end_to_host(rx.take_handle(), vec![]));
+            drop(rx);
+            Box::pin(async move {
+                let (st, buf) = tx.write(items::<Blob>(2)).await;
+                *res2.borrow_mut() = Some(format!("{st:?} rem {}", buf.remaining()));
+            })
+        }
+        MOp::StreamRead => {
+            let (tx, mut rx) = unsafe { stream_new(&BLOBS) };
+            let wh = tx.handle();
+            std::mem::forget(tx);
+            with(|h| h.give_stream_end_to_host(wh, expect_items::<Blob>(2)));
+            Box::pin(async move {
+                let (st, buf) = rx.read(Vec::with_capacity(2)).await;
+                *res2.borrow_mut() = Some(format!("{st:?} got {}", buf.len()));
+            })
+        }
+        MOp::FutureRead => {
+            let (tx, rx) = unsafe { future_new(Blob::default, &BLOBF) };
+            let wh = writer_handle(&tx);
+            std::mem::forget(tx);
+            with(|h| h.give_future_end_to_host(wh, Some(vec![0x42, 0x43, 0x44])));
+            Box::pin(async move {
+                let v = rx.into_future().await;
+                *res2.borrow_mut() = Some(format!("read {:?}", v.0));
+            })
+        }
+        MOp::Subtask => Box::pin(async move {
+            let mut imp = Imp::new(true, ResKind::Heap);
+            let p = imp.params(0x30);
+            let r = imp.call(p).await;
+            *res2.borrow_mut() = Some(format!("{r:?}"));
+        }),
+    });
+    let mut last_polled: Option<usize> = None;
+    let mut how = "horizon";
+    for _step in 0..14 {
+        hexec::audit_all();
+        crate::alloc::audit();
+        crate::explore::fingerprint(with(|h| h.fingerprint()));
+        #[derive(Clone, Copy, Debug)]
+        enum A {
+            Poll(usize),
+            Deliver(usize, u32),
+            Host(host::Progress),
+            DropOp(Option<usize>),
+            End(usize),
+        }
+        let mut acts: Vec<A> = Vec::new();
+        if fut.is_some() {
+            for t in 0..2 {
+                if alive[t] && tasks[t].was_woken() {
+                    acts.push(A::Poll(t));
+                }
+            }
+        }
+        for t in 0..2 {
+            if alive[t] {
+                let regs: Vec<u32> = tasks[t].st().regs.keys().copied().collect();
+                for w in regs {
+                    if with(|h| h.entry(w).map(|e| e.pending.is_some()).unwrap_or(false)) {
+                        acts.push(A::Deliver(t, w));
+                    }
+                }
+            }
+        }
+        for p in with(|h| h.progress_actions()) {
+            acts.push(A::Host(p));
+        }
+        if fut.is_some() {
+            match last_polled {
+                None => acts.push(A::Poll(0)),
+                Some(t) => {
+                    // spurious re-poll under the same task, and the move to the other task
+                    if alive[t] && !tasks[t].was_woken() {
+                        acts.push(A::Poll(t));
+                    }
+                    if allow_move && alive[1 - t] {
+                        acts.push(A::Poll(1 - t));
+                    }
+                }
+            }
+            if let Some(t) = last_polled {
+                if alive[t] {
+                    acts.push(A::DropOp(Some(t)));
+                }
+                if version >= 2 {
+                    acts.push(A::DropOp(None));
+                }
+            }
+        }
+        for t in 0..2 {
+            // a task may end once the operation is not (or no longer) driven by it alone
+            if alive[t] && (fut.is_none() || (allow_move && last_polled.is_some())) {
+                acts.push(A::End(t));
+            }
+        }
+        if acts.is_empty() {
+            if fut.is_some() {
+                violation("C18", "deadlock:foreign-executor", "operation pending, nothing registered that the host could complete");
+                how = "deadlock";
+            } else {
+                how = "done";
+            }
+            break;
+        }
+        match acts[choose("m-step", acts.len())] {
+            A::Poll(t) => {
+                crate::explore::trace(format!("htask{t}: poll op"));
+                last_polled = Some(t);
+                if let Poll::Ready(()) = tasks[t].poll(fut.as_mut().unwrap()) {
+                    fut = None;
+                }
+            }
+            A::Deliver(t, w) => tasks[t].deliver(w),
+            A::Host(p) => with(|h| h.apply_progress(p)),
+            A::DropOp(ctx) => {
+                crate::explore::trace(format!("drop op in context {ctx:?}"));
+                let f = fut.take();
+                match ctx {
+                    Some(t) => tasks[t].enter(|_| drop(f)),
+                    None => drop(f),
+                }
+            }
+            A::End(t) => {
+                crate::explore::trace(format!("htask{t}: ends"));
+                tasks[t].destroy();
+                alive[t] = false;
+            }
+        }
+    }
+    obs(format!("{:?}", result.borrow()));
+    drop(fut);
+    for t in 0..2 {
+        if alive[t] {
+            tasks[t].destroy();
+        }
+    }
+    if how == "done" {
+        hexec::final_check();
+    }
+    drop(tasks);
+    hexec::free_all();
     how
 }
 
@@ -961,12 +1133,26 @@ pub fn catalogue() -> Vec<Scenario> {
         scn!("B1-block_on-yield", ["C22"], || t_block_on(TBody::Yield(1))),
         scn!("B1-block_on-import", ["C22", "C21"], || t_block_on(TBody::AwaitImport)),
         scn!("B1-block_on-stream", ["C22", "C19"], || t_block_on(TBody::AwaitStreamWrite)),
+        // foreign executors (wasip3_task C ABI v1 / v2), one task and moved between two tasks
+        scn!("M0-v1-stream-write", ["C18"], || m_scn(1, MOp::StreamWrite, false)),
+        scn!("M0-v1-subtask", ["C18"], || m_scn(1, MOp::Subtask, false)),
+        scn!("M0-v2-stream-read", ["C18"], || m_scn(2, MOp::StreamRead, false)),
+        scn!("M1-v2-stream-write-moved", ["C18"], || m_scn(2, MOp::StreamWrite, true)),
+        scn!("M1-v2-future-read-moved", ["C18"], || m_scn(2, MOp::FutureRead, true)),
+        scn!("M1-v2-subtask-moved", ["C18"], || m_scn(2, MOp::Subtask, true)),
         // wakeups
         scn!("K1-one-wake", ["C23", "C22"], || k_scn(1, false, false)),
         scn!("K1-two-wakes", ["C23"], || k_scn(2, false, false)),
         scn!("K1-one-wake-cancel", ["C23", "C22"], || k_scn(1, false, true)),
         scn!("K2-wake-with-waitable", ["C23", "C22", "C18"], || k_scn(1, true, false)),
     ];
+    // scenarios that need a runtime feature this build does not have
+    if !cfg!(feature = "spawn") {
+        v.retain(|s| !s.name.contains("spawn"));
+    }
+    if !cfg!(feature = "itw") {
+        v.retain(|s| !s.name.starts_with('K'));
+    }
     for s in v.iter_mut() {
         if s.name == "T1-immediate" || s.name == "B1-block_on-immediate" {
             s.allow_single_outcome = true;
